@@ -46,19 +46,30 @@ def storedTier (s : State) (a : Nat) (except : Option Nat) : Option Bool :=
   | some old => if some old = except then none else some (typOf s old)
   | none => none
 
-/-- one host of `Set.add` (as repaired): retire another object stored under the address,
-store the host, list it as healthy iff its flag says so -/
-def addOne (s : State) (o : Obj) : State :=
+/-- `Set.add` when nothing equal is stored: an object of the other type stored under the address
+is retired and latched; the host is stored and listed as healthy iff its flag says so -/
+def addOneRepl (s : State) (o : Obj) : State :=
   let t := storedTier s o.addr (some o.id)
   let hM := if t = some true then upd s.hMain o.addr none else s.hMain
   let hB := if t = some false then upd s.hBackup o.addr none else s.hBackup
+  let rem := match t, s.all o.addr with
+    | some _, some old => upd s.removed old true
+    | _, _ => s.removed
   { all := upd s.all o.addr (some o.id)
     reg := upd s.reg o.id (some (o.addr, o.main))
     flag := s.flag
-    removed := s.removed
+    removed := rem
     dom := if s.dom.contains o.addr then s.dom else o.addr :: s.dom
     hMain := if s.flag o.id = true ∧ o.main = true then upd hM o.addr (some o.id) else hM
     hBackup := if s.flag o.id = true ∧ o.main = false then upd hB o.addr (some o.id) else hB }
+
+/-- `Set.add` of a host that is already stored as another, equal object (same address, same
+type): the stored object stays, the argument is only seen -/
+def addOneSeen (s : State) (o : Obj) : State := { s with reg := upd s.reg o.id (some (o.addr, o.main)) }
+
+/-- one host of `Set.add` (as repaired) -/
+def addOne (s : State) (o : Obj) : State :=
+  if storedTier s o.addr (some o.id) = some o.main then addOneSeen s o else addOneRepl s o
 
 /-- one host of `Set.remove` (as repaired): the stored object under the address is removed and
 latched and its healthy entry dropped; the argument is latched; the entry of the argument's
